@@ -438,6 +438,175 @@ def harvest_doc_bodies():
     return out
 
 
+def arity_cases():
+    """From / Into with a listed tuple type of every arity against 0..4 fields: at struct, variant and field level,
+    plain and inside owned / ref / ref_mut, with a skipped field, with a second listed type
+    (utils.rs validate_type: the `wrong tuple length` diagnostics and their usize subtractions)"""
+    out = []
+    for nf in range(0, 5):
+        tys = ["i32"] * nf
+        tuple_fields = "(%s)" % ", ".join(tys)
+        named_fields = "{ %s }" % ", ".join("f%d: i32" % i for i in range(nf))
+        for ar in (0, 1, 2, 3, 4, 5, 6, 40):
+            tup = "(" + ", ".join(["i16"] * ar) + ("," if ar == 1 else "") + ")"
+            for fields, semi in ((tuple_fields, ";"), (named_fields, "")):
+                out.append(("From", "#[from(%s)] struct P%s%s" % (tup, fields, semi)))
+                out.append(("From", "#[from(u8, %s)] struct P%s%s" % (tup, fields, semi)))
+                out.append(("From", "enum E { #[from(%s)] V%s, W }" % (tup, fields)))
+                out.append(("From", "enum E { #[from(%s, %s)] V%s, #[from] W(u8) }" % (tup, tup, fields)))
+                out.append(("Into", "#[into(%s)] struct P%s%s" % (tup, fields, semi)))
+                for w in ("owned", "ref", "ref_mut"):
+                    out.append(("Into", "#[into(%s(%s))] struct P%s%s" % (w, tup, fields, semi)))
+                out.append(("Into", "#[into(owned(%s), ref(%s), ref_mut(%s, u8))] struct P%s%s" % (tup, tup, tup, fields, semi)))
+                out.append(("Into", "#[into(%s)] #[into(ref(%s))] struct P%s%s" % (tup, tup, fields, semi)))
+            # field level (one field is converted) and a skipped field (the arity counts the remaining ones)
+            if nf >= 1:
+                rest = ", ".join(["i32"] * (nf - 1))
+                out.append(("Into", "struct P(#[into(%s)] i32%s);" % (tup, (", " + rest) if rest else "")))
+                out.append(("Into", "struct P { #[into(ref(%s))] a: i32, b: u8 }" % tup))
+                out.append(("Into", "#[into(%s)] struct P(%s, #[into(skip)] u8);" % (tup, ", ".join(tys))))
+                out.append(("Into", "#[into(ref_mut(%s))] struct P { %s, #[into(ignore)] z: u8 }" % (
+                    tup, ", ".join("f%d: i32" % i for i in range(nf)))))
+    return out
+
+
+INT_TYPES = [("i8", 8, True), ("i16", 16, True), ("i32", 32, True), ("i64", 64, True), ("i128", 128, True),
+             ("isize", 64, True), ("u8", 8, False), ("u16", 16, False), ("u32", 32, False), ("u64", 64, False),
+             ("u128", 128, False), ("usize", 64, False)]
+
+
+def spellings(v, ty=None):
+    """source spellings of the integer v: decimal, underscores, hex, octal, binary, suffixed"""
+    neg = v < 0
+    a = -v if neg else v
+    sign = "-" if neg else ""
+    dec = str(a)
+    und = "_".join([dec[max(0, len(dec) - 3 * (k + 1)):len(dec) - 3 * k] for k in range((len(dec) + 2) // 3)][::-1])
+    hx = "%X" % a
+    hxu = "_".join([hx[max(0, len(hx) - 4 * (k + 1)):len(hx) - 4 * k] for k in range((len(hx) + 3) // 4)][::-1])
+    out = [sign + dec, sign + und, sign + "0x" + hxu, sign + "0o%o" % a, sign + "0b%s" % bin(a)[2:]]
+    if ty:
+        out += [sign + dec + ty, sign + "0x" + hx + "_" + ty]
+    return out
+
+
+def limit_values():
+    vals = []
+    for ty, bits, signed in INT_TYPES:
+        lo, hi = (-(1 << (bits - 1)), (1 << (bits - 1)) - 1) if signed else (0, (1 << bits) - 1)
+        for v in (lo - 1, lo, lo + 1, hi - 1, hi, hi + 1):
+            vals.append((ty, v))
+    return vals
+
+
+HUGE_LITERALS = ["340282366920938463463374607431768211456", "99999999999999999999999999999999999999999999",
+                 "0xFFFF_FFFF_FFFF_FFFF_FFFF_FFFF_FFFF_FFFF_FF", "-170141183460469231731687303715884105729",
+                 "0b" + "1" * 130, "0o7777777777777777777777777777777777777777777777", "1e400", "1.5", "1_u8_", "0x",
+                 "18446744073709551616usize", "256u8", "-129i8", "1u256", "0xG"]
+
+
+def discriminant_cases(rng, quick):
+    """TryFrom (and every other enum derive on a subset): explicit literal discriminants at and around the limits of every
+    integer type, in every spelling, followed by 0..3 implicit variants, under every repr; plus literals that fit no type"""
+    out = []
+    reprs = [t for t, _, _ in INT_TYPES]
+    combos = []
+    for ty, v in limit_values():
+        for sp in spellings(v, ty):
+            for tail in range(0, 4):
+                combos.append((ty, sp, tail))
+    for sp in HUGE_LITERALS:
+        for tail in range(0, 4):
+            combos.append((None, sp, tail))
+    for (ty, sp, tail) in combos:
+        tails = "".join(", T%d" % k for k in range(tail))
+        rs = [ty or "u64", None] + ([] if quick else reprs)
+        if quick:
+            rs.append(rng.choice(reprs))
+        for r in dict.fromkeys(rs):
+            rep = "#[repr(%s)] " % r if r else ""
+            pre = rng.choice(["", "Zero, ", "Zero, Low = 5, Next, "])
+            out.append(("TryFrom", "#[try_from(repr)] %senum L { %sMid = %s%s }" % (rep, pre, sp, tails)))
+    # the other enum derives see the same discriminants (they must ignore them)
+    others = ["FromStr", "IsVariant", "Unwrap", "TryUnwrap", "TryInto", "Display", "Debug", "From", "Error", "Add", "Not"]
+    for (ty, sp, tail) in rng.sample(combos, 150 if quick else 1500):
+        tails = "".join(", T%d" % k for k in range(tail))
+        out.append((rng.choice(others), "#[repr(%s)] enum L { Zero, Mid = %s%s }" % (ty or "u64", sp, tails)))
+    return out
+
+
+def numeric_cases(rng, quick, derives):
+    """other numeric inputs of the derives at and around integer limits: format argument indexes, widths, precisions,
+    `_N` field references, tuple-field accesses in arguments, array lengths / const arguments in field types,
+    structs with very many fields"""
+    out = []
+    ns = sorted(set([0, 1, 2, 255, 256, 65535, 65536, 70000] +
+                    [x for b in (31, 32, 63, 64, 127, 128) for x in ((1 << b) - 1, 1 << b, (1 << b) + 1)] + [10 ** 40]))
+    fmts = ["Display", "Debug", "Binary", "LowerHex", "Pointer", "UpperExp", "Octal"]
+    for n in ns:
+        for lit in ("{%d}", "{:%d}", "{:.%d}", "{:%d$}", "{:.%d$}", "{_%d}", "{_%d:?}", "{0:%d.%d}" , "{:0%d}", "{:>%d}", "{%d:%d$}"):
+            body = lit.replace("%d", str(n))
+            d = rng.choice(fmts) if quick else None
+            for dd in ([d] if d else fmts):
+                nm = {"Display": "display", "Debug": "debug", "Binary": "binary", "LowerHex": "lower_hex", "Pointer": "pointer",
+                      "UpperExp": "upper_exp", "Octal": "octal"}[dd]
+                out.append((dd, "#[%s(\"%s\")] struct A(i32, i32);" % (nm, body)))
+                out.append((dd, "#[%s(\"%s\", _0, _1)] struct A<T>(T, i32);" % (nm, body)))
+                out.append((dd, "enum A<T> { #[%s(\"%s\")] V(T, i32), W }" % (nm, body)))
+        for arg in ("_0.%d", "self.%d", "_%d", "x.%d.%d", "a[%d]", "%d", "-%d", "%du8", "0x%X"):
+            a = arg.replace("%d", str(n)).replace("%X", "%X" % n)
+            out.append(("Display", "#[display(\"{}\", %s)] struct A<T>(T, i32);" % a))
+            out.append(("Debug", "struct A<T>(#[debug(\"{}\", %s)] T, i32);" % a))
+        for ty in ("[T; %d]", "[u8; %d]", "Foo<%d>", "Foo<{ %d }>", "[[T; %d]; %d]", "[T; %dusize]", "[T; 0x%X]", "Foo<-%d>"):
+            t = ty.replace("%d", str(n)).replace("%X", "%X" % n)
+            ds = rng.sample(derives, 4 if quick else len(derives))
+            for (trait, _, _) in ds:
+                out.append((trait, "struct A<T, const N: usize>(%s);" % t))
+                out.append((trait, "enum A<T> { V { a: %s }, W }" % t))
+    # very many fields / variants (numbered variables, `_N` names, tuple indexes)
+    for cnt in ((70, 300) if quick else (70, 300, 1200)):
+        tup = "struct A<T>(%s);" % ", ".join(["T"] * cnt)
+        named = "struct A<T> { %s }" % ", ".join("f%d: T" % k for k in range(cnt))
+        enum = "enum A { %s }" % ", ".join("V%d" % k for k in range(cnt))
+        enum2 = "enum A<T> { %s }" % ", ".join("V%d(T)" % k for k in range(cnt))
+        for (trait, _, _) in derives:
+            for it in (tup, named, enum, enum2):
+                out.append((trait, it))
+        out.append(("Display", "#[display(\"{_%d} {_%d}\")] %s" % (cnt - 1, cnt, tup)))
+        out.append(("TryFrom", "#[try_from(repr)] #[repr(u8)] " + enum))
+    return out
+
+
+# lemma of Proofs.v that stops checking -> derives whose expansion exercises the modelled function
+LEMMA_FOCUS = {
+    "validate_type_arith_safe": ["From", "Into"], "from_types_safe": ["From"], "from_legacy_error_safe": ["From"],
+    "from_expand_fields_unit_arm_unreachable": ["From"], "into_loop_safe": ["Into"], "into_push_value_safe": ["Into"],
+    "into_legacy_top_level_safe": ["Into"], "error_index_safe": ["Error"], "parse_fields_inv": ["Error"],
+    "render_ops_safe": ["Error"], "infer_source_rem_safe": ["Error"], "try_into_member_safe": ["TryInto"],
+    "as_struct_attr_unwrap_safe": ["AsRef", "AsMut"], "as_field_attrs_skip_unreachable": ["AsRef", "AsMut"],
+    "display_shared_attr_unwrap_safe": ["Display", "Binary", "Octal", "LowerHex", "UpperHex", "LowerExp", "UpperExp", "Pointer"],
+    "placeholder_counter_safe": ["Display", "Debug"], "balanced_pair_count_safe": ["Display", "Debug"],
+    "assert_single_enabled_field_safe": ["Deref", "DerefMut", "Index", "IndexMut", "IntoIterator", "FromStr"],
+    "len1_index0_safe": ["FromStr"], "fmt_trait_names_total": ["Display", "Debug"],
+}
+
+
+def failing_lemma(proof_failure):
+    """name of the lemma of C18/Proofs.v (or theorem of Props.v) enclosing the line coqc stopped at"""
+    m = re.match(r"(?:\./)?(theories/C18/\w+\.v):(\d+)", (proof_failure or {}).get("failed") or "")
+    if not m:
+        return None
+    try:
+        lines = open(os.path.join(common.COQ, m.group(1))).read().splitlines()[:int(m.group(2))]
+    except OSError:
+        return None
+    for l in reversed(lines):
+        mm = re.match(r"\s*(?:Lemma|Theorem|Example)\s+(\w+)", l)
+        if mm:
+            return mm.group(1)
+    return None
+
+
 # fixed corpus: the witnesses of the refuted theorems and earlier minimised failures, run first
 CORPUS = [
     ("Error", "struct E(#[error(ignore)] i32, Backtrace);"),          # index panic until /repo 6329c3f
@@ -774,6 +943,11 @@ def run(tier, seed, replay):
         quick = tier == "quick"
         # (a) corpus
         run_batch([(d, it, "corpus") for d, it in CORPUS])
+        # (a') listed tuple types of every arity against 0..4 fields (From / Into, all levels and kinds)
+        run_batch([(d, it, "arity") for d, it in arity_cases()])
+        # (a'') numeric inputs at and around the limits of every integer type
+        run_batch([(d, it, "discriminant") for d, it in discriminant_cases(rng, quick)])
+        run_batch([(d, it, "numeric") for d, it in numeric_cases(rng, quick, derives)], timeout=60)
         # (b) every derive x every base shape, no attributes
         cases = []
         for (trait, module, declared) in derives:
@@ -836,7 +1010,13 @@ def run(tier, seed, replay):
     extra = 0
     if (unaccounted or getattr(chk, "proof_broken", False)) and not replay:
         files = set(s["file"] for s in unaccounted)
-        biased = [d for d in derives if any(f in files for f in file_of_module(d[1]))] or derives
+        biased = [d for d in derives if any(f in files for f in file_of_module(d[1]))]
+        lemma = failing_lemma(getattr(chk, "proof_failure", None))
+        if lemma:
+            chk.notes.append("the obligation that stopped checking is %s" % lemma)
+            focus = LEMMA_FOCUS.get(lemma) or LEMMA_FOCUS.get(lemma.replace("C18_", ""), [])
+            biased += [d for d in derives if d[0] in focus and d not in biased]
+        biased = biased or derives
         n_extra = 60000 if tier == "quick" else 400000
         chk.log("unaccounted sites in %s: fuzzing %d more probes biased to %s" % (
             sorted(files), n_extra, [d[0] for d in biased][:8]))
@@ -870,6 +1050,7 @@ def run(tier, seed, replay):
             {"key": s["key"], "file": s["file"], "line": s["line"], "fn": s["fn"], "kind": s["kind"],
              "text": s["text"][:200]} for s in missing]
         detail["unclassified_sites_with_failing_input"] = hit
+        detail["failing_lemma"] = failing_lemma(getattr(chk, "proof_failure", None))
         if missing or not unaccounted:
             chk.violation("proof-broken", detail,
                           "C18 obligation no longer checks (%s); unclassified sites: %s; %d extra biased probes found no "
@@ -913,7 +1094,7 @@ def syn_variant_check(chk):
     """fmt/mod.rs contains_generics ends three matches on syn enums with `_ => unimplemented!()`; list the variants of
     the locked syn version that no arm names (they would reach the arm if syn's parser can produce them)"""
     try:
-        lock = open(os.path.join(common.REPO, "Cargo.lock")).read()
+        lock = open(common.repo_lock()).read()
         vers = re.findall(r'name = "syn"\nversion = "(2\.[^"]+)"', lock)
         if not vers:
             return "syn 2.x not in Cargo.lock"
